@@ -710,19 +710,44 @@ theorem keys_subset_partial (o : SObj) (name : List Nat) (h : name ∈ o.keys) (
 
 /-! ## Order of conversions -/
 
-/-- two plans that choose the same next operand produce the same call log, throw together, and otherwise
-    finish on the same converted values -/
-theorem exec_next_congr (p q : Plan) (r : Run) (h : p.next = q.next) :
-    ∀ (fuel : Nat) (d : Done) (log : List Nat),
+/-- a conversion fails only with the script's exception or with TypeError (§8.12.8 step 5) -/
+theorem defaultValue_fail (who : Nat) (o : Operand) (h : Hint) (log lg : Log) (e : Res)
+    (hd : defaultValue who o h log = (lg, .inr e)) : e = .throwScript ∨ e = .throwType := by
+  unfold defaultValue at hd
+  simp only [] at hd
+  split at hd
+  · simp at hd
+  · simp only [Prod.mk.injEq, Sum.inr.injEq] at hd; exact Or.inl hd.2.symm
+  · split at hd
+    · simp at hd
+    · simp only [Prod.mk.injEq, Sum.inr.injEq] at hd; exact Or.inl hd.2.symm
+    · simp only [Prod.mk.injEq, Sum.inr.injEq] at hd; exact Or.inr hd.2.symm
+
+/-- C09.hint_agrees: every operand of every modelled method is converted with the preferred type ES5 prescribes:
+    ToString (toString first) for the receiver, search strings, separators, replacements, `that` and every concat
+    argument; ToInteger / ToNumber / ToUint32 (valueOf first) for positions, lengths and the split limit -/
+theorem hint_agrees (m : String) : goHint m = Spec.es5Hint m := by
+  funext who
+  unfold goHint Spec.es5Hint
+  split
+  · rfl
+  · split <;> simp_all
+
+/-- two plans that choose the same next operand and apply the same conversion to it produce the same call log
+    (which method of which operand, in which order), throw together, and otherwise finish on the same
+    converted values -/
+theorem exec_next_congr (p q : Plan) (r : Run) (h : p.next = q.next) (hh : p.hint = q.hint) :
+    ∀ (fuel : Nat) (d : Done) (log : Log),
       (exec p r fuel d log).1 = (exec q r fuel d log).1 ∧
-      (((exec p r fuel d log).2 = .throwScript ∧ (exec q r fuel d log).2 = .throwScript) ∨
+      (((exec p r fuel d log).2 = (exec q r fuel d log).2 ∧
+          ((exec p r fuel d log).2 = .throwScript ∨ (exec p r fuel d log).2 = .throwType)) ∨
        ∃ d', (exec p r fuel d log).2 = p.finish r d' ∧ (exec q r fuel d log).2 = q.finish r d') := by
   intro fuel
   induction fuel with
   | zero => intro d log; exact ⟨rfl, Or.inr ⟨d, rfl, rfl⟩⟩
   | succ f ih =>
     intro d log
-    simp only [exec, ← h]
+    simp only [exec, ← h, ← hh]
     cases hn : p.next r d with
     | none => exact ⟨rfl, Or.inr ⟨d, rfl, rfl⟩⟩
     | some who =>
@@ -731,9 +756,18 @@ theorem exec_next_congr (p q : Plan) (r : Run) (h : p.next = q.next) :
       | prim v => exact ih _ _
       | obj outs =>
         simp only []
-        split
-        · exact ⟨rfl, Or.inl ⟨rfl, rfl⟩⟩
-        · exact ih _ _
+        cases hd : defaultValue who (Operand.obj outs) (p.hint who) log with
+        | mk lg res =>
+          cases res with
+          | inl v => exact ih _ _
+          | inr e => exact ⟨rfl, Or.inl ⟨rfl, defaultValue_fail who _ _ log lg e hd⟩⟩
+      | dual vo ts =>
+        simp only []
+        cases hd : defaultValue who (Operand.dual vo ts) (p.hint who) log with
+        | mk lg res =>
+          cases res with
+          | inl v => exact ih _ _
+          | inr e => exact ⟨rfl, Or.inl ⟨rfl, defaultValue_fail who _ _ log lg e hd⟩⟩
 
 /-- the String methods whose conversion order is modelled -/
 def seqMethods : List String :=
@@ -751,13 +785,14 @@ theorem order_agrees (E : Env) (m : String) (hm : m ∈ seqMethods) :
     (try (by_cases h1 : r.args.length = 1 <;> simp [h1, present]))
 
 /-- C09.seq_log_eq: for every modelled method, on every receiver and argument list (primitive, scripted, throwing), the
-    implementation's plan and the ES5 plan make the same conversion calls in the same order, throw at the
-    same call, and otherwise apply their pure functions to the same converted values -/
+    implementation's plan and the ES5 plan make the same conversion-method calls (valueOf / toString of the same operand) in the same order, fail at the
+    same call with the same exception, and otherwise apply their pure functions to the same converted values -/
 theorem seq_log_eq (E : Env) (m : String) (r : Run) (hm : m ∈ seqMethods) :
     ((goPlan E m).run r).1 = ((Spec.es5Plan E m).run r).1 ∧
-    ((((goPlan E m).run r).2 = .throwScript ∧ ((Spec.es5Plan E m).run r).2 = .throwScript) ∨
+    ((((goPlan E m).run r).2 = ((Spec.es5Plan E m).run r).2 ∧
+        (((goPlan E m).run r).2 = .throwScript ∨ ((goPlan E m).run r).2 = .throwType)) ∨
      ∃ d', ((goPlan E m).run r).2 = (goPlan E m).finish r d' ∧ ((Spec.es5Plan E m).run r).2 = (Spec.es5Plan E m).finish r d') :=
-  exec_next_congr (goPlan E m) (Spec.es5Plan E m) r (order_agrees E m hm) _ _ _
+  exec_next_congr (goPlan E m) (Spec.es5Plan E m) r (order_agrees E m hm) (hint_agrees m) _ _ _
 
 /-! ## Deviation regions: kernel-checked witnesses (each is replayed on the real code by the harness) -/
 
@@ -826,16 +861,16 @@ example : (SObj.build sABC []).hasOwn [0x30, 0x31] = false ∧ (SObj.build sABC 
 def oS (bs : List Nat) : Operand := .obj [.ret (.str bs)]
 def oN (n : Nat) : Operand := .obj [.ret (num n)]
 -- the four former order regions (repaired by 9cedee7, 90e37ee, fa1b2ca, b1a6116): both plans agree
-example : ((goPlan E0 "charAt").run ⟨oS sABC, [oN 1]⟩).1 = [0, 1] ∧ ((Spec.es5Plan E0 "charAt").run ⟨oS sABC, [oN 1]⟩).1 = [0, 1] := by decide
-example : ((goPlan E0 "split").run ⟨.prim (.str sABC), [oS [0x2C], .prim (num 0)]⟩) = ([1], .arr []) ∧
-    ((Spec.es5Plan E0 "split").run ⟨.prim (.str sABC), [oS [0x2C], .prim (num 0)]⟩) = ([1], .arr []) := by decide
-example : ((goPlan E0 "replace").run ⟨.prim (.str sABC), [.prim (.str [0x78]), oS [0x79]]⟩).1 = [2] ∧
-    ((Spec.es5Plan E0 "replace").run ⟨.prim (.str sABC), [.prim (.str [0x78]), oS [0x79]]⟩).1 = [2] := by decide
-example : ((goPlan E0 "lastIndexOf").run ⟨.prim (.str []), [.prim (.str [0x78]), oN 2]⟩).1 = [2] ∧
-    ((Spec.es5Plan E0 "lastIndexOf").run ⟨.prim (.str []), [.prim (.str [0x78]), oN 2]⟩).1 = [2] := by decide
+example : ((goPlan E0 "charAt").run ⟨oS sABC, [oN 1]⟩).1 = [(0, 0), (1, 0)] ∧ ((Spec.es5Plan E0 "charAt").run ⟨oS sABC, [oN 1]⟩).1 = [(0, 0), (1, 0)] := by decide
+example : ((goPlan E0 "split").run ⟨.prim (.str sABC), [oS [0x2C], .prim (num 0)]⟩) = ([(1, 0)], .arr []) ∧
+    ((Spec.es5Plan E0 "split").run ⟨.prim (.str sABC), [oS [0x2C], .prim (num 0)]⟩) = ([(1, 0)], .arr []) := by decide
+example : ((goPlan E0 "replace").run ⟨.prim (.str sABC), [.prim (.str [0x78]), oS [0x79]]⟩).1 = [(2, 0)] ∧
+    ((Spec.es5Plan E0 "replace").run ⟨.prim (.str sABC), [.prim (.str [0x78]), oS [0x79]]⟩).1 = [(2, 0)] := by decide
+example : ((goPlan E0 "lastIndexOf").run ⟨.prim (.str []), [.prim (.str [0x78]), oN 2]⟩).1 = [(2, 0)] ∧
+    ((Spec.es5Plan E0 "lastIndexOf").run ⟨.prim (.str []), [.prim (.str [0x78]), oN 2]⟩).1 = [(2, 0)] := by decide
 -- slice converts start before end, the end conversion does not run when start throws
-example : (goPlan E0 "slice").run ⟨.prim (.str sABC), [oN 1, oN 2]⟩ = ([1, 2], .str [0x62]) ∧
-    (goPlan E0 "slice").run ⟨.prim (.str sABC), [.obj [.throw], oN 2]⟩ = ([1], .throwScript) := by decide
+example : (goPlan E0 "slice").run ⟨.prim (.str sABC), [oN 1, oN 2]⟩ = ([(1, 0), (2, 0)], .str [0x62]) ∧
+    (goPlan E0 "slice").run ⟨.prim (.str sABC), [.obj [.throw], oN 2]⟩ = ([(1, 0)], .throwScript) := by decide
 
 -- primitive_this_boxed (repaired by fc1155e): with String.prototype.toString replaced, "abc".charAt(0) is "a" on both sides,
 -- and a String object receiver is converted through the replaced toString on both sides
@@ -857,6 +892,17 @@ theorem this_of_member_call (t : List Nat) (r : Recv) (h : coercible r = true) :
     cases r with
     | val v => cases v <;> simp_all [memberCallThis, coercible]
     | _ => simp [memberCallThis]
+
+-- which METHOD is called (seed K12): concat converts its arguments with ToString (toString first), positions with
+-- ToInteger (valueOf first); an object without toString concatenates as "[object Object]"; DefaultValue falls back to
+-- the other method when the first is not callable or returns an object, and throws TypeError when both fail
+def dVT (v t : Val) : Operand := .dual (.outs [.ret v]) (.outs [.ret t])
+example : (goPlan E0 "concat").run ⟨.prim (.str [0x61]), [dVT (num 1) (.str [0x73])]⟩ = ([(1, 2)], .str [0x61, 0x73]) ∧
+    (Spec.es5Plan E0 "concat").run ⟨.prim (.str [0x61]), [dVT (num 1) (.str [0x73])]⟩ = ([(1, 2)], .str [0x61, 0x73]) := by decide
+example : ((goPlan E0 "slice").run ⟨.prim (.str sABC), [dVT (num 1) (.str [0x32])]⟩) = ([(1, 1)], .str [0x62, 0x63]) := by decide
+example : ((goPlan E0 "concat").run ⟨.prim (.str [0x61]), [.dual (.outs [.ret (num 1)]) .absent]⟩) = ([], .str ([0x61] ++ sObjectObject)) := by decide
+example : ((goPlan E0 "concat").run ⟨.dual .notCallable (.outs [.retObj]), []⟩) = ([(0, 2)], .throwType) := by decide
+example : ((goPlan E0 "concat").run ⟨.dual (.outs [.ret (.str [0x76])]) (.outs [.retObj]), []⟩) = ([(0, 2), (0, 1)], .str [0x76]) := by decide
 
 /-! ## Non-vacuity of the side conditions -/
 example : NoLone (.strObj sAXB) ∧ NoLone (.val16 [0xD835, 0xDCB3]) ∧ SmallInt (num 2) ∧ SmallInt (.int .i64 7) ∧ ¬ NoLone (.val16 [0xD800]) := by
